@@ -38,7 +38,9 @@ def run(prog, rep):
                 rep.ob("C20.2", fn, "handle:%s#%d" % (short(path), k), False,
                        "line %d: the descriptor/handle %s obtained at line %s is neither closed, nor owned by a returned object, nor returned at this %s" % (
                            at, path, acq, "failure exit" if "failure" in detail else "return"), at, w, info=info)
-            elif "failure exit" not in detail:
+            else:
+                # failure exits included: "this holds equally when calls in the sequence fail" - whatever made the call fail (C18.2 reports
+                # the same exits for the allocation-failure property)
                 mem_ok = False
                 rep.ob("C20.4", fn, "temp:%s#%d" % (short(path), k), False,
                        "line %d: %s allocated at line %s is still held when the function returns (%s): it is never released" % (at, path, acq, detail), at, w, info=info)
